@@ -33,6 +33,9 @@ Links ==
   \cup {[n |-> "alpha", q1 |-> q, item |-> i, q2 |-> q2] : q \in {"", "module"}, i \in {"", "tgt", "holder", "missing"}, q2 \in {"", "variable", "type", "interface"}}
   \* `holder` names a type AND its constructor interface: only qualified spellings are defined
   \cup {[n |-> "holder", q1 |-> "type", item |-> i, q2 |-> q2] : i \in {"", "tgt", "bnd"}, q2 \in {"", "variable", "bound"}}
+  \* ... and the constructor interface is reached with a procedure qualifier, also when the item part names nothing
+  \cup {[n |-> "holder", q1 |-> q, item |-> i, q2 |-> ""] : q \in {"proc", "procedure"}, i \in {"", "missing"}}
+  \cup {[n |-> "holder", q1 |-> "type", item |-> "missing", q2 |-> ""]}
   \* `rst` is a subroutine of alpha and of another module: defined only where the context decides
   \cup {[n |-> "rst", q1 |-> q, item |-> "", q2 |-> ""] : q \in {"", "subroutine"}}
   \cup {[n |-> "main", q1 |-> q, item |-> "", q2 |-> ""] : q \in {"", "program"}}
@@ -71,6 +74,7 @@ ProjFind(name, q) ==
       ELSE <<>>)
   ELSE IF name = "alpha" /\ q \in {"", "module"} THEN <<"alpha">>
   ELSE IF name = "holder" /\ q \in {"", "type"} THEN <<"alpha", "holder">>
+  ELSE IF name = "holder" /\ q \in {"proc", "procedure"} THEN <<"alpha", "holder", "iface">>
   ELSE IF name = "main" /\ q \in {"", "program"} THEN <<"main">>
   ELSE <<>>
 
